@@ -319,6 +319,7 @@ pub struct FrontendCtx<'a, R: FileManager> {
 
     pub type_application_stack: Vec<(String, Runtype)>,
     typeof_value_stack: Vec<ModuleItemAddress>,
+    resolution_stack: Vec<ModuleItemAddress>,
     typeof_expr_stack: Vec<(BffFileName, Span)>,
     jsdoc_cache_by_file: BTreeMap<BffFileName, JsdocFileCache>,
 }
@@ -500,6 +501,24 @@ trait TypeModuleWalker<'a, R: FileManager + 'a, U> {
     }
 
     fn get_addressed_item(&mut self, addr: &ModuleItemAddress, err_anchor: &Anchor) -> Res<U> {
+        // a.ts: export { X } from "./b"; b.ts: export { X } from "./a" - following the re-exports would not end
+        if self.get_ctx().resolution_stack.contains(addr) {
+            return Err(self.get_ctx().box_error(
+                err_anchor,
+                DiagnosticInfoMessage::CannotNotResolveType(addr.clone()),
+            ));
+        }
+        self.get_ctx().resolution_stack.push(addr.clone());
+        let res = self.get_addressed_item_unguarded(addr, err_anchor);
+        self.get_ctx().resolution_stack.pop();
+        res
+    }
+
+    fn get_addressed_item_unguarded(
+        &mut self,
+        addr: &ModuleItemAddress,
+        err_anchor: &Anchor,
+    ) -> Res<U> {
         let parsed_module = self.get_ctx().get_or_fetch_file(&addr.file, err_anchor)?;
         match addr.visibility {
             Visibility::Local => {
@@ -879,6 +898,19 @@ trait ValueModuleWalker<'a, R: FileManager + 'a, U> {
         }
     }
     fn get_addressed_item(&mut self, addr: &ModuleItemAddress, anchor: &Anchor) -> Res<U> {
+        if self.get_ctx().resolution_stack.contains(addr) {
+            return Err(self.get_ctx().box_error(
+                anchor,
+                DiagnosticInfoMessage::CannotNotResolveValue(addr.clone()),
+            ));
+        }
+        self.get_ctx().resolution_stack.push(addr.clone());
+        let res = self.get_addressed_item_unguarded(addr, anchor);
+        self.get_ctx().resolution_stack.pop();
+        res
+    }
+
+    fn get_addressed_item_unguarded(&mut self, addr: &ModuleItemAddress, anchor: &Anchor) -> Res<U> {
         let parsed_module = self.get_ctx().get_or_fetch_file(&addr.file, anchor)?;
         match addr.visibility {
             Visibility::Local => {
@@ -1136,6 +1168,7 @@ impl<'a, R: FileManager> FrontendCtx<'a, R> {
 
             type_application_stack: vec![],
             typeof_value_stack: vec![],
+            resolution_stack: vec![],
             typeof_expr_stack: vec![],
             recursive_generic_uuids: BTreeSet::new(),
             jsdoc_cache_by_file: BTreeMap::new(),
